@@ -32,6 +32,12 @@ var c17Patterns = map[string][]float64{
 	"ties":     {3, 3, 5, 5, 5, 7},
 	"midout":   {19, 10, 11, 12, 13, 14}, // 19 lies between the 1.0·IQR and the 1.5·IQR fence
 	// the quartiles coincide although the values are not all equal: the fence is a single point (needs ≥7 values)
+	// constant values that binary floating point cannot represent: a mean computed as sum/n leaves [min, max].
+	// Only paired with themselves (large-tables): with other patterns the deltas of different rows differ by
+	// rounding noise only, and their order under a delta sort is not decided by the property.
+	"const3":    {0.1, 0.1, 0.1},
+	"const10":   {0.1, 0.1, 0.1, 0.1, 0.1, 0.1, 0.1, 0.1, 0.1, 0.1},
+	"const7":    {0.7, 0.7, 0.7, 0.7, 0.7, 0.7, 0.7},
 	"flatstray": {3, 3, 3, 3, 40, 3, 3, 3, 3, 3},
 	"flatboth":  {0.5, 3, 3, 3, 3, 3, 3, 3, 96},
 }
@@ -539,6 +545,10 @@ func compareTables(got []*Table, want []expTable, s c17Spec) string {
 					}
 					continue
 				}
+				// min ≤ mean ≤ max is stated without a tolerance: the mean of retained values never leaves their range
+				if len(gm.RValues) > 0 && !(gm.Min <= gm.Mean && gm.Mean <= gm.Max) {
+					return fmt.Sprintf("table %s row %s config %d: min=%v mean=%v max=%v are not in order (retained %v)", wt.metric, wr.bench, ci, gm.Min, gm.Mean, gm.Max, gm.RValues)
+				}
 				if len(gm.RValues) != wc.n || !relEq(gm.Min, wc.min) || !relEq(gm.Max, wc.max) || !relEq(gm.Mean, wc.mean) {
 					return fmt.Sprintf("table %s row %s config %d: retained n=%d min=%v mean=%v max=%v, want n=%d min=%v mean=%v max=%v (values %v)", wt.metric, wr.bench, ci, len(gm.RValues), gm.Min, gm.Mean, gm.Max, wc.n, wc.min, wc.mean, wc.max, gm.Values)
 				}
@@ -753,8 +763,11 @@ func c17LargeSpecs(thorough bool) []c17Spec {
 			rev[i] = names[n-1-i]
 		}
 		for _, lay := range [][][]string{{scr, rev}, {rev, scr}, {names, scr}} {
-			for _, pp := range [][2]string{{"single", "single"}, {"incr", "incr"}, {"constant", "incr"}, {"ties", "two"}, {"flatstray", "flatstray"}, {"flatboth", "constant"}, {"incr", "flatboth"}} {
+			for _, pp := range [][2]string{{"single", "single"}, {"incr", "incr"}, {"constant", "incr"}, {"ties", "two"}, {"flatstray", "flatstray"}, {"flatboth", "constant"}, {"incr", "flatboth"}, {"const3", "const10"}, {"const7", "const7"}} {
 				for _, sh := range [][]float64{{1, 1}, {1, 1.25}} {
+					if strings.HasPrefix(pp[0], "const") && pp[0] != "constant" && sh[1] != 1 {
+						continue // non-dyadic values: equal deltas would differ by rounding noise between rows
+					}
 					specs = append(specs, c17Spec{Configs: 2, Layout: lay, Units: []string{"ns/op"}, Pats: pp[:], Shift: sh})
 				}
 			}
@@ -785,6 +798,11 @@ func c17Large(c *mc.Check) {
 			for _, st := range settings {
 				s := specs[i]
 				s.Test, s.Alpha, s.Order, s.GeoMean, s.Groups, s.SplitPkg = st.Test, st.Alpha, st.Order, st.Geo, st.Grp, st.Spl
+				if strings.HasPrefix(s.Pats[0], "const") && s.Pats[0] != "constant" && s.Groups && !s.SplitPkg {
+					// two blocks merged into one sample: the sample is no longer constant, and the float means of
+					// the two configurations (3 and 10 repetitions of non-dyadic values) differ by rounding noise
+					continue
+				}
 				var msg string
 				var amb bool
 				if p := mc.Catch(func() { msg, amb = c17Check(s) }); p != "" {
